@@ -61,6 +61,15 @@ OpJoin(x, y, dst, how) == /\ Live(x) /\ Live(y) /\ dst # x /\ dst # y
     /\ Put(dst, [xyz |-> o[x].xyz \o o[y].xyz, time |-> o[x].time \o o[y].time,
                  cell |-> [has |-> o[x].cell.has, v |-> o[x].cell.v \o o[y].cell.v], tr |-> NoTr])
     /\ sh' = Fresh(dst) /\ Log([op |-> how, x |-> x, y |-> y, dst |-> dst, idx |-> <<>>, kind |-> ""])
+\* x.join(y, discard_overlapping_frames=True): the LAST frame of x is dropped when it has the coordinates of the first frame of y.
+\* The cache of the result, if an implementation keeps one, describes the rows that remain (CacheSound speaks about `tr` whatever the
+\* path).  The replay exercises the option through the identity below: x joined with (last frame of x, then y) is x joined with y.
+JoinRec(a, b) == [xyz |-> a.xyz \o b.xyz, time |-> a.time \o b.time, cell |-> [has |-> a.cell.has, v |-> a.cell.v \o b.cell.v], tr |-> NoTr]
+FrontRec(a) == Index(a, [k \in 1..(NRows(a) - 1) |-> k], TRUE)
+LastRec(a) == Index(a, <<NRows(a)>>, TRUE)
+JoinDiscardRec(a, b) == IF NRows(a) > 0 /\ NRows(b) > 0 /\ a.xyz[NRows(a)] = b.xyz[1] THEN JoinRec(FrontRec(a), b) ELSE JoinRec(a, b)
+DiscardIdentity == \A x, y \in Obj : (Live(x) /\ Live(y) /\ NRows(o[x]) > 0 /\ NCols(o[x]) = NCols(o[y]) /\ o[x].cell.has = o[y].cell.has)
+                       => JoinDiscardRec(o[x], JoinRec(LastRec(o[x]), o[y])) = JoinRec(o[x], o[y])
 \* x.stack(y): atoms side by side; time and cell are those of x and may be x's own arrays
 OpStack(x, y, dst) == /\ Live(x) /\ Live(y) /\ dst # x /\ dst # y
     /\ NRows(o[x]) = NRows(o[y]) /\ NCols(o[x]) + NCols(o[y]) <= 2 * A
